@@ -48,7 +48,7 @@ func (s *step) fill() error {
 // genHistory: single- and multi-point batches, overwrites of existing keys placed
 // preferably right after a flush, 1..2N-1 single-point writes between flushes (uneven WAL
 // partitions), drop and re-creation of a measurement.
-func genHistory(r *rand.Rand, u *kit.Universe, nops, nParts int) []step {
+func genHistory(r *rand.Rand, u *kit.Universe, nops, nParts int, manyFlushes bool) []step {
 	var h []step
 	add := func(op string, pts []model.Point, mst string) {
 		st := step{Op: op, Mst: mst, pts: pts}
@@ -58,6 +58,25 @@ func genHistory(r *rand.Rand, u *kit.Universe, nops, nParts int) []step {
 		h = append(h, st)
 	}
 	add("write", u.SeedBatch(r, nil), "")
+	if manyFlushes {
+		// more than ten flush generations in one process lifetime (WAL file numbers cross a
+		// digit boundary); a key written right before every flush is overwritten right after it,
+		// so the old and the new WAL generation both hold it when the flush is held open
+		for g := 0; g < 12; g++ {
+			pre := u.GenBatch(r, kit.BatchOpts{MaxPoints: 2, FullRowProb: 0.6})
+			add("write", pre, "")
+			add("flush", nil, "")
+			for _, q := range pre {
+				p := model.Point{Mst: q.Mst, Tags: q.Tags, T: q.T, Fields: map[string]model.Value{}}
+				for f, v := range q.Fields {
+					p.Fields[f] = kit.Value(r, v.Kind)
+				}
+				add("write", []model.Point{p}, "")
+			}
+			add("write", u.GenBatch(r, kit.BatchOpts{MaxPoints: 1, FullRowProb: 0.5}), "")
+		}
+		return h
+	}
 	var recent []model.Point // keys written since the last flush and before
 	dropped := map[string]bool{}
 	for len(h) < nops {
@@ -463,6 +482,7 @@ func (rn *runner) runCase(hidx int, h []step, cc crashCase, worker, cpus int, ca
 		}
 	}
 	died := -1
+	windowStep := -1
 	for i := range h {
 		if cc.K == 0 && cc.ExtStep > 0 && cc.ExtStep == i {
 			// external SIGKILL racing with the request
@@ -509,6 +529,7 @@ func (rn *runner) runCase(hidx int, h []step, cc crashCase, worker, cpus int, ca
 			s.Kill()
 			h = h[:last+1]
 			died = len(h)
+			windowStep = i
 			c.Count("flush-window-cases", 1)
 			c.Count("writes-acknowledged-inside-flush-window", int64(last-i))
 			break
@@ -641,6 +662,12 @@ func (rn *runner) runCase(hidx int, h []step, cc crashCase, worker, cpus int, ca
 	c.Count("recovered-cells-compared", int64(len(got)))
 	if len(diffs) > 0 {
 		sig := signatureOf(h, died, diffs[0])
+		if strings.HasPrefix(sig, "reverted-to-older") {
+			// where do the winning (older) write and the lost (newer) write sit relative to the
+			// last WAL switch (flush step) before the crash? Only two writes of the SAME WAL
+			// generation can be swapped by the known replay-interleaving defect.
+			sig += "|" + generationRelation(h, died, windowStep, diffs[0])
+		}
 		if len(diffs) > 6 {
 			diffs = diffs[:6]
 		}
@@ -819,7 +846,8 @@ func main() {
 		}
 		r := c.Rand(uint64(100 + hi))
 		u := kit.NewUniverse(2, 4, 8)
-		h := genHistory(r, u, c.Pick(36, 60), nparts)
+		many := hi == nh-1 || (c.Thorough() && hi%4 == 3)
+		h := genHistory(r, u, c.Pick(36, 60), nparts, many)
 		w := <-sem
 		trace, after, base, ok := rn.dryRun(hi, h, w, cpus)
 		sem <- w
@@ -842,10 +870,26 @@ func main() {
 		}
 		// flush windows: every flush step that is followed by at least two writes
 		nw := 0
-		for i := 1; i+2 < len(h) && nw < c.Pick(4, 12); i++ {
+		var flushSteps []int
+		for i := 1; i+2 < len(h); i++ {
 			if h[i].Op == "flush" && h[i+1].Op == "write" && h[i+2].Op == "write" {
-				cases = append(cases, crashCase{Window: i, Why: "kill inside flush window after acknowledged writes"})
-				nw++
+				flushSteps = append(flushSteps, i)
+			}
+		}
+		if many {
+			// the 9th..12th flush of the process: file numbers 9/10 etc.
+			for _, i := range flushSteps {
+				if nw < c.Pick(5, 12) && len(flushSteps) > 4 && i >= flushSteps[len(flushSteps)-5] {
+					cases = append(cases, crashCase{Window: i, Why: "kill inside the flush window of a late flush generation"})
+					nw++
+				}
+			}
+		} else {
+			for _, i := range flushSteps {
+				if nw < c.Pick(4, 12) {
+					cases = append(cases, crashCase{Window: i, Why: "kill inside flush window after acknowledged writes"})
+					nw++
+				}
 			}
 		}
 		if hi == 0 {
@@ -903,4 +947,53 @@ func replay(rn *runner) {
 	rn.runCase(0, w.Witness.Steps, w.Witness.Crash, 0, w.Witness.CPUs, 0)
 	rn.c.Nontrivial("replay-a")
 	rn.c.Nontrivial("replay-b")
+}
+
+// generationRelation: for a reverted key tells whether the winning older write and the
+// lost newer write were both issued after the last WAL switch that preceded the crash
+// ("same-wal-generation"), or the older one before it ("older-write-in-previous-generation").
+// lastSwitch is the flush step held open in flush-window cases; otherwise the last
+// completed flush step before the crash.
+func generationRelation(h []step, died, lastSwitch int, diff string) string {
+	i := strings.Index(diff, " recovered ")
+	k := strings.Index(diff, ", acknowledged ")
+	if i < 0 || k < 0 {
+		return "unclassified"
+	}
+	keyField := diff[:i]
+	obs := diff[i+len(" recovered ") : k]
+	exp := diff[k+len(", acknowledged "):]
+	if j := strings.Index(exp, " or "); j >= 0 {
+		exp = exp[:j]
+	}
+	if lastSwitch < 0 {
+		for x := 0; x < died && x < len(h); x++ {
+			if h[x].Op == "flush" {
+				lastSwitch = x
+			}
+		}
+	}
+	find := func(val string) int {
+		at := -1
+		for x := 0; x < died && x < len(h); x++ {
+			for _, p := range h[x].pts {
+				for f, v := range p.Fields {
+					if (model.RowKey{Mst: p.Mst, Series: model.SeriesKey(p.Tags), T: p.T}).String()+"."+f == keyField && v.String() == val {
+						at = x
+					}
+				}
+			}
+		}
+		return at
+	}
+	so, sn := find(obs), find(exp)
+	switch {
+	case so < 0 || sn < 0:
+		return "unclassified"
+	case so > lastSwitch && sn > lastSwitch:
+		return "same-wal-generation"
+	case so <= lastSwitch && sn > lastSwitch:
+		return "older-write-in-previous-generation"
+	}
+	return "both-writes-before-the-last-switch"
 }
